@@ -40,6 +40,12 @@ def main(argv=None):
         print(f"HARNESS-ERROR property={pid} {e}")
         traceback.print_exc()
         return 2
+    except BaseException as e:  # noqa: BLE001 - an uncaught exception must never look like a verdict
+        if isinstance(e, SystemExit):
+            raise
+        print(f"HARNESS-ERROR property={pid} uncaught {type(e).__name__}: {e}")
+        traceback.print_exc()
+        return 2
     finally:
         loader.cleanup_scratch()
 
